@@ -28,6 +28,12 @@ func CreateMirror(unpacker unpackFn) rio.MirrorFunc {
 			defer close(mon.Chan)
 		}
 
+		// No target, nothing to mirror into.  (Pack takes "" for "just hash it"; here it would mean
+		//  reading the whole ware, storing it nowhere, and reporting success.)
+		if target == "" {
+			return api.WareID{}, Errorf(rio.ErrUsage, "mirror needs a target warehouse")
+		}
+
 		// Try to read the ware from the target first; if successfull, no-op out.
 		//  We don't fully re-verify the content, because that requires a time
 		//  committment, and we want this command to be fast when run repeatedly.
